@@ -15,6 +15,22 @@ import (
 
 func init() { register("attach", cmdAttach) }
 
+// flakyStorage is a SlabStorage whose Remove can be made to fail once (a transient storage fault).
+type flakyStorage struct {
+	*atree.PersistentSlabStorage
+	failRemove bool
+	fired      bool
+}
+
+func (f *flakyStorage) Remove(id atree.SlabID) error {
+	if f.failRemove {
+		f.failRemove = false
+		f.fired = true
+		return fmt.Errorf("injected storage fault on Remove(%s)", id)
+	}
+	return f.PersistentSlabStorage.Remove(id)
+}
+
 func cmdAttach(a Args) {
 	rep := NewReport(a.Prop, a.Seed)
 	rep.Rule = "a small stand-alone array or map (0..6 scalars) is committed as its own slab; then, under schedule {keep cache, drop cache, drop cache + read it once, reopen by id in the same storage}, it is appended/set into a parent array or map (it becomes inlined), optionally mutated through its handle, and everything is committed; oracles: the registers in the ledger are exactly the slabs reachable from the parent (health check with one root on a fresh fully loaded storage), content of parent and child after reopen, and byte-identical ledgers across the four schedules of the same case. non-trivial = schedule evicts the child's slab from the read cache before the attachment"
@@ -41,7 +57,7 @@ func cmdAttach(a Args) {
 			vals[i] = uint64(hr.Intn(70000))
 		}
 		var ledgers []*LogBase
-		for sched := 0; sched < 4; sched++ {
+		for sched := 0; sched < 5; sched++ {
 			failed := false
 			fail := func(what, detail string) {
 				if !failed {
@@ -56,7 +72,9 @@ func cmdAttach(a Args) {
 					}
 				}()
 				base := NewLogBase()
-				st := newStorage(base)
+				pst := newStorage(base)
+				fst := &flakyStorage{PersistentSlabStorage: pst}
+				var st atree.SlabStorage = fst // containers see the (possibly flaky) storage
 				addr := mkAddr(1)
 				var child atree.Value
 				var childID atree.SlabID
@@ -76,16 +94,16 @@ func cmdAttach(a Args) {
 					}
 					child, childID = c, c.SlabID()
 				}
-				must(st.FastCommit(2))
+				must(pst.FastCommit(2))
 				switch sched {
 				case 1:
-					st.DropCache()
+					pst.DropCache()
 					rep.Distinct(fmt.Sprintf("%s-%d", tag, sched))
 				case 2:
-					st.DropCache()
-					_, _, _ = st.Retrieve(childID)
+					pst.DropCache()
+					_, _, _ = pst.Retrieve(childID)
 				case 3:
-					st.DropCache()
+					pst.DropCache()
 					var err error
 					if childIsMap {
 						child, err = atree.NewMapWithRootID(st, childID, atree.NewDefaultDigesterBuilder())
@@ -93,8 +111,10 @@ func cmdAttach(a Args) {
 						child, err = atree.NewArrayWithRootID(st, childID)
 					}
 					must(err)
-					st.DropCache()
+					pst.DropCache()
 					rep.Distinct(fmt.Sprintf("%s-%d", tag, sched))
+				case 4:
+					fst.failRemove = true // the Remove issued while the child is inlined fails once
 				}
 				var parr *atree.Array
 				var pmap *atree.OrderedMap
@@ -105,12 +125,25 @@ func cmdAttach(a Args) {
 					_, err = pmap.Set(testutils.CompareValue, testutils.GetHashInput, testutils.Uint64Value(1), testutils.Uint64Value(5))
 					must(err)
 					_, err = pmap.Set(testutils.CompareValue, testutils.GetHashInput, testutils.Uint64Value(2), child)
+					if err != nil && fst.fired {
+						rep.Event("attach_failed_once_then_retried")
+						_, err = pmap.Set(testutils.CompareValue, testutils.GetHashInput, testutils.Uint64Value(2), child)
+					}
 					must(err)
 				} else {
 					parr, err = atree.NewArray(st, addr, testutils.NewSimpleTypeInfo(40))
 					must(err)
 					must(parr.Append(testutils.Uint64Value(5)))
-					must(parr.Append(child))
+					err = parr.Append(child)
+					if err != nil && fst.fired {
+						rep.Event("attach_failed_once_then_retried")
+						err = parr.Append(child)
+					}
+					must(err)
+					if err := atree.VerifyArray(parr, addr, testutils.NewSimpleTypeInfo(40), testutils.CompareTypeInfo, testutils.GetHashInput, true); err != nil {
+						fail("C06: after a transient storage fault and a successful retry the parent's size bookkeeping is wrong", err.Error())
+						return
+					}
 				}
 				want := append([]uint64(nil), vals...)
 				if mutate {
@@ -122,8 +155,10 @@ func cmdAttach(a Args) {
 					must(err)
 					want = append(want, 77)
 				}
-				must(st.FastCommit(2))
-				ledgers = append(ledgers, base)
+				must(pst.FastCommit(2))
+				if sched < 4 {
+					ledgers = append(ledgers, base)
+				}
 				// the ledger holds exactly what is reachable from the parent
 				st2 := newStorage(base.Clone())
 				for _, id := range base.SortedIDs() {
